@@ -144,8 +144,19 @@ def lookup (ren : List (Nat × Nat)) (q : Nat) : Nat :=
 def validLocation (loc : List Nat) (n : Nat) : Bool :=
   loc.all (· < n) && loc.eraseDups.length == loc.length
 
+def insertSorted (x : Nat) : List Nat → List Nat
+  | [] => [x]
+  | y :: ys => if x ≤ y then x :: y :: ys else y :: insertSorted x ys
+
+/-- `sorted(...)` on naturals (insertion sort). -/
+def sortNat (l : List Nat) : List Nat := l.foldr insertSorted []
+
 /-- `get_subgraph(location, renumbering)`; `ren = none` is the default
-renumbering (position in `location`).  Result `none` when the call raises. -/
+renumbering (position in `location`).  Result `none` when the call raises.
+The permutation check is `sorted(renumbering.values()) != list(range(len(location)))`
+(since the fix 494efa1).  An empty location passes all checks and then raises in
+the constructor (`CouplingGraph([], 0)`: calc_num_qudits = 1 > 0), which `mk?`
+reproduces. -/
 def G.subgraph (g : G) (loc : List Nat) (ren : Option (List (Nat × Nat))) : Option G :=
   if !validLocation loc g.n then none else
   let r : List (Nat × Nat) := match ren with
@@ -155,17 +166,13 @@ def G.subgraph (g : G) (loc : List Nat) (ren : Option (List (Nat × Nat))) : Opt
   let vals := r.map (·.2)
   if r.length != loc.length then none
   else if !(keys.all loc.contains && loc.all keys.contains) then none
-  else if loc.isEmpty then none     -- min() of an empty sequence raises
-  else if !(vals.foldl min (vals.headD 0) == 0 && vals.foldl max 0 == loc.length - 1) then none
+  else if sortNat vals != List.range loc.length then none
   else
     let raw := loc.flatMap (fun a => ((g.adj a).filter loc.contains).map
       (fun b => (lookup r a, lookup r b)))
     mk? raw (some loc.length)
 
 /-! ### get_subgraphs_of_size -/
-def insertSorted (x : Nat) : List Nat → List Nat
-  | [] => [x]
-  | y :: ys => if x ≤ y then x :: y :: ys else y :: insertSorted x ys
 
 /-- `_location_search`; `path` kept sorted, result = list of sorted vertex sets. -/
 def locSearch (g : G) : Nat → List (List Nat) → List Nat → Nat → Nat → List (List Nat)
@@ -189,8 +196,13 @@ def injections : Nat → Nat → List Nat → List (List Nat)
     ((List.range m).filter (fun v => !acc.contains v)).flatMap
       (fun v => injections k m (acc ++ [v]))
 
+/-- `candidate_labels[q1]` is empty: no vertex of `h` has degree ≥ deg(q1). -/
+def noCandidate (g h : G) (q1 : Nat) : Bool :=
+  (List.range h.n).all (fun q2 => !((g.adj q1).length ≤ (h.adj q2).length))
+
 def G.isEmbeddedIn (g h : G) : Bool :=
   if g.n > h.n then false else
+  if (List.range g.n).any (noCandidate g h) then false else
   (injections g.n h.n []).any (fun f =>
     g.edges.all (fun e => h.hasEdge (f.getD e.1 0) (f.getD e.2 0)))
 
@@ -199,7 +211,10 @@ def allToAllRaw (n : Nat) : List (Nat × Nat) :=
   (List.range n).flatMap (fun a => ((List.range n).filter (a < ·)).map (fun b => (a, b)))
 def linearRaw (n : Nat) : List (Nat × Nat) := (List.range (n - 1)).map (fun x => (x, x + 1))
 /-- `ring(n)`: `[(x,x+1) …] + [(0, n-1)]`; for `n = 1` the extra pair is the
-self loop (0,0) and for `n = 0` it is (0,-1): the constructor raises. -/
+self loop (0,0): the constructor raises.  For `n = 0` the pair is (0,-1), which is
+outside the model's vertex type (Python accepts it through negative-index aliasing
+and returns a malformed one-vertex graph with the edge (-1,0)); `none` here,
+`n = 0` is outside the documented domain and not compared. -/
 def ringRaw (n : Nat) : Option (List (Nat × Nat)) :=
   if n == 0 then none else some (linearRaw n ++ [(0, n - 1)])
 def starRaw (n : Nat) : List (Nat × Nat) := (List.range' 1 (n - 1)).map (fun x => (0, x))
@@ -231,6 +246,10 @@ def digits (r n x : Nat) : List Nat :=
 def undigits (r : Nat) (ds : List Nat) : Nat := ds.foldl (fun acc d => acc * r + d) 0
 def swapDigits (ds : List Nat) (a b : Nat) : List Nat :=
   (ds.set a (ds.getD b 0)).set b (ds.getD a 0)
+
+/-- `gen_swap_unitary(radix)`: the row holding the 1 of column `col`
+(`a = col // radix; b = col % radix; row = b * radix + a`). -/
+def genSwapRow (r col : Nat) : Nat := (col % r) * r + col / r
 
 /-- The resulting permutation matrix as a function column ↦ row
 (`P[row, col] = 1`).  `apply_left(S)` puts `S` on the left *of the circuit
